@@ -30,8 +30,9 @@ func init() { runners["C01"] = runC01 }
 // holds, and no object sits in the pools twice. At the end of a history every output string obtained earlier
 // must still read what it read when it was returned.
 // Correspondence: every result is also compared with the prediction of the extracted pool machine.
-// A third, informational pass uses VerifPoisonPoolsStrict (garbage also where only the release side of the
-// code guarantees cleanliness); its differences are reported as notes, not as failures.
+// Two more, informational passes over a sample (modes strict-fields, strict-maps) put garbage also where only the
+// release side of the code guarantees cleanliness (FunctionNode.moduleExpr; the bare map pools of render.go);
+// their differences are reported as notes and counters, not as failures: the code cannot produce those states.
 
 type c01Op struct {
 	Kind string
@@ -309,6 +310,7 @@ func c01HeapCheck(es []*twig.Engine) string {
 }
 
 type c01Failure struct {
+	AtEnd    bool // found when the history was over (an earlier output changed): later operations matter
 	K        int
 	Kind     string // "oracle" | "disagreement"
 	Expected string
@@ -345,6 +347,10 @@ func c01Run(h *c01Hist, mode string, seed int64, refs map[int]string, withModel 
 			twig.VerifPoisonPools(seed + int64(o.K0))
 		case "strict":
 			twig.VerifPoisonPoolsStrict(seed + int64(o.K0))
+		case "strict-fields":
+			twig.VerifPoisonPoolsWith(seed+int64(o.K0), true, false)
+		case "strict-maps":
+			twig.VerifPoisonPoolsWith(seed+int64(o.K0), false, true)
 		}
 		got, out := c01Exec(es, o, seed+int64(o.K0))
 		if o.Kind == "render" || o.Kind == "load" {
@@ -370,7 +376,7 @@ func c01Run(h *c01Hist, mode string, seed int64, refs map[int]string, withModel 
 	}
 	for _, kp := range outs {
 		if kp.s != kp.first {
-			return &c01Failure{K: kp.k, Kind: "oracle", Expected: "out:" + hx(kp.first), Observed: "out:" + hx(kp.s),
+			return &c01Failure{AtEnd: true, K: kp.k, Kind: "oracle", Expected: "out:" + hx(kp.first), Observed: "out:" + hx(kp.s),
 				Detail: fmt.Sprintf("the string returned by the render at operation %d changed after it was returned (its bytes are shared with a pooled buffer), mode %q", kp.k, mode)}
 		}
 	}
@@ -385,6 +391,14 @@ func c01Sub(h *c01Hist, keep []bool) *c01Hist {
 		}
 	}
 	return s
+}
+
+// c01Cut drops the operations after the failing one, unless the failure was found at the end of the history.
+func c01Cut(h *c01Hist, f *c01Failure) *c01Hist {
+	if f.AtEnd || f.K+1 >= len(h.Ops) {
+		return h
+	}
+	return &c01Hist{Engines: h.Engines, Store: h.Store, Ops: h.Ops[:f.K+1]}
 }
 
 // c01Shrink: greedy deletion of operations (and of loader templates) while some oracle failure remains.
@@ -402,7 +416,7 @@ func c01Shrink(h *c01Hist, mode string, seed int64) (*c01Hist, *c01Failure) {
 	if best == nil {
 		return h, nil // not reproducible in isolation: reported unshrunk
 	}
-	cur = &c01Hist{Engines: h.Engines, Store: h.Store, Ops: h.Ops[:best.K+1]}
+	cur = c01Cut(h, best)
 	for round := 0; round < 4; round++ {
 		changed := false
 		for i := len(cur.Ops) - 1; i >= 0; i-- {
@@ -415,7 +429,7 @@ func c01Shrink(h *c01Hist, mode string, seed int64) (*c01Hist, *c01Failure) {
 				continue
 			}
 			if f := fails(cand); f != nil {
-				cur, best, changed = &c01Hist{Engines: cand.Engines, Store: cand.Store, Ops: cand.Ops[:f.K+1]}, f, true
+				cur, best, changed = c01Cut(cand, f), f, true
 				if i > len(cur.Ops) {
 					i = len(cur.Ops)
 				}
@@ -425,7 +439,7 @@ func c01Shrink(h *c01Hist, mode string, seed int64) (*c01Hist, *c01Failure) {
 			cand := &c01Hist{Engines: cur.Engines, Ops: cur.Ops}
 			cand.Store = append(append([]c01Op(nil), cur.Store[:i]...), cur.Store[i+1:]...)
 			if f := fails(cand); f != nil {
-				cur, best, changed = &c01Hist{Engines: cand.Engines, Store: cand.Store, Ops: cand.Ops[:f.K+1]}, f, true
+				cur, best, changed = c01Cut(cand, f), f, true
 			}
 		}
 		if !changed {
@@ -568,12 +582,15 @@ func runC01(cases string, res *Result) {
 		}
 		// informational: garbage also where only the release side of the code guarantees cleanliness
 		if idx%4 == 0 {
-			n := 0
 			strictRuns++
-			if f := c01Run(&h, "strict", seed, refs, false, &n); f != nil && f.Kind == "oracle" {
-				strictDiffs++
-				if strictDiffs <= 3 {
-					res.Notes = append(res.Notes, fmt.Sprintf("strict poison (not a state the code can produce itself), history %d op %d: expected %s observed %s", idx, f.K, f.Expected, f.Observed))
+			for _, mode := range []string{"strict-fields", "strict-maps"} {
+				n := 0
+				if f := c01Run(&h, mode, seed, refs, false, &n); f != nil && f.Kind == "oracle" {
+					res.Hist[mode+"-histories-differing"]++
+					strictDiffs++
+					if res.Hist[mode+"-histories-differing"] <= 2 {
+						res.Notes = append(res.Notes, fmt.Sprintf("%s poison (not a state the code can produce itself), history %d op %d: expected %s observed %s", mode, idx, f.K, f.Expected, f.Observed))
+					}
 				}
 			}
 			// what the strict poison left behind must not reach the histories that follow
@@ -582,7 +599,26 @@ func runC01(cases string, res *Result) {
 	})
 	res.Hist["fresh-process-references"] = fresh
 	res.Hist["strict-poison-histories"] = strictRuns
-	res.Hist["strict-poison-histories-differing"] = strictDiffs
+	_ = strictDiffs
+	// a probe of its own for the one release-only field: a plain function call takes its FunctionNode from the pool
+	{
+		probe := c01Hist{Engines: 1, Ops: []c01Op{
+			{Kind: "register", N: 0, Src: "{{ max(1, 2) }}"}, {Kind: "render", K0: 1, N: 0}, {Kind: "render", K0: 2, N: 0}}}
+		n := 0
+		for _, mode := range []string{"poisoned", "strict-fields"} {
+			f := c01Run(&probe, mode, 424242, map[int]string{}, false, &n)
+			msg := "same as pristine"
+			if f != nil {
+				msg = fmt.Sprintf("op %d: expected %s observed %s", f.K, f.Expected, f.Observed)
+				if mode == "poisoned" {
+					res.add(Finding{Kind: "oracle", Where: "function-call probe, mode poisoned", Case: c01CaseOf(&probe, "probe"),
+						Expected: f.Expected, Observed: f.Observed, Detail: f.Detail})
+				}
+			}
+			res.Notes = append(res.Notes, fmt.Sprintf("probe {{ max(1, 2) }} rendered twice, mode %s: %s", mode, msg))
+			twig.VerifDrainPools()
+		}
+	}
 	twig.VerifDrainPools()
 }
 
